@@ -166,3 +166,27 @@ def scope_functions(mod, fn, include_nested=True):
             if isinstance(n, ast.Call) and isinstance(n.func, ast.Name) and n.func.id in mod.functions:
                 todo.append(mod.functions[n.func.id])
     return out
+
+
+def eval_sized(test, sizes):
+    """evaluate a test in which the names in `sizes` are containers of the given sizes (truthiness and len());
+    returns True/False, or None if the test involves anything else"""
+    class R(ast.NodeTransformer):
+        def visit_Call(self, n):
+            if isinstance(n.func, ast.Name) and n.func.id == "len" and len(n.args) == 1 and isinstance(n.args[0], ast.Name) and n.args[0].id in sizes:
+                return ast.Constant(sizes[n.args[0].id])
+            return self.generic_visit(n)
+
+        def visit_Name(self, n):
+            if n.id in sizes:
+                return ast.Constant(sizes[n.id])
+            return n
+
+    e = R().visit(ast.parse(ast.unparse(test), mode="eval").body)
+    ast.fix_missing_locations(e)
+    if any(isinstance(x, (ast.Name, ast.Call, ast.Attribute, ast.Subscript)) for x in ast.walk(e)):
+        return None
+    try:
+        return bool(eval(compile(ast.Expression(e), "<t>", "eval"), {"__builtins__": {}}))  # noqa: S307 - constant expression
+    except Exception:  # noqa: BLE001
+        return None
